@@ -120,7 +120,15 @@ OnPoll(s, e, ln) ==
   ELSE
   LET p == [lo |-> e.lo, up |-> e.up, eos |-> e.eos, res |-> e.res, n |-> e.n, env |-> e.env, nexts |-> e.nexts]
       before == s.bs.bad
-      bs2 == Observe(s.bs, p, s.isGet)
+      \* A file-backed entity has no stream log.  When the harness truncates the file below the end of
+      \* the (single) range while the body is still incomplete, the entity's stream can no longer honour
+      \* its contract: recorded as a failed call, so that C01/C02 stop speaking and C07 starts.
+      \* (Generated only for full / single-range responses with the new length <= the last byte's index.)
+      cut == s.isFile /\ e.ftrunc >= 0 /\ s.bs.term = "none"
+               /\ (s.bs.ann.k = "none" \/ Lt(s.bs.del, s.bs.ann.v))
+      bs1 == IF cut THEN [s.bs EXCEPT !.calls = Append(s.bs.calls, [NewCall(Zero, One) EXCEPT !.st = "failed"])]
+             ELSE s.bs
+      bs2 == Observe(bs1, p, s.isGet)
       new == bs2.bad \ before
       \* Strict: compare with the Impl body machine
       it == ItemOf(e.env)
